@@ -23,7 +23,9 @@ LEVEL_TEXT = ('Decides four clauses. C06-b: every value Request::read_payload re
               "that receives the head, every exit that gives up without parsing depends only on the read's result (count, error) and on counters, never on the conten"
               "t of the bytes received so far (a decision on a partial head depends on where the segments were cut). C06-e: the session loop's clear-before-each-read"
               ' clause and the exhaustiveness of the reset (C05-a/b) re-evaluated: whatever one read left in the Request is reset before the next read on every path,'
-              ' also after a refused request. These are necessary conditions of segmentation independence; the behaviour for all segmentations is not decided.')
+              ' also after a refused request. C06-c4: the receive loop is left for the parser only over an edge that establishes that the head is complete, that the '
+              'buffer is full, or that the read returned 0 bytes (not on a short read). These are necessary conditions of segmentation independence; the behaviour fo'
+              'r all segmentations is not decided.')
 
 
 def run(ck, progs):
@@ -250,6 +252,76 @@ def c06c(ck, prog):
                     if content:
                         ck.ob("C06-c MUSTPASS head complete", "receive-loop:no-decision-on-partial-content", False, f.loc(t.get("sp")),
                               "inside the loop that receives the head, a return without parsing depends on `%s`, i.e. on the content of the bytes received so far: whether the request is dropped then depends on where its head was cut into segments (a cut inside the method token, say), not on the request" % d[:110])
+        # (c4) the loop is left for the parser only when the head is complete, the buffer is full, or the peer has stopped
+        # sending (a read of 0 bytes): not on a short read, a byte count or any other test -- a head that arrives in two
+        # segments would otherwise be parsed truncated
+        bad_exit = None
+        nparse = 0
+        # evaluated on the function that holds the loop natively (Request::read itself, or the awaited helper the loop was
+        # moved into): in a spliced-in view the helper's `return Ok(None)` and `Ok(Some(n))` share one continuation
+        raw = prog.one(r"^ohkami::request::Request::read::\{closure#0\}$")
+        g4 = raw if [c for c in raw.calls() if re.search(STREAM_READ, c.callee or "") or re.search(STREAM_READ, c.decl or "")] else None
+        if g4 is None:
+            cands = [h for h in prog.fns.values() if h.key.startswith("ohkami::request::") and h.coroutine and [c for c in h.calls() if re.search(STREAM_READ, c.callee or "") or re.search(STREAM_READ, c.decl or "")]]
+            if len(cands) != 1:
+                raise AnchorLost("the function holding the head-receive loop was not found (%d candidates)" % len(cands))
+            g4 = cands[0]
+        rd4 = [c for c in g4.calls() if re.search(STREAM_READ, c.callee or "") or re.search(STREAM_READ, c.decl or "")][0]
+        loops4 = natural_loops(g4)
+        ar4 = sorted([(len(body), h) for h, body in loops4.items() if rd4.bb in body])
+        if not ar4:
+            raise AnchorLost("the stream read is not in a loop")
+        L4 = loops4[ar4[0][1]]
+        goal = {c.bb for c in g4.calls() if re.search(r"request::method::Method::from_bytes$", c.callee or "") and c.bb not in L4}
+        if g4 is not raw:
+            goal = {bb for bb, kind, payload in paths.ret_sites(g4) if kind in ("Ok", "Ready") and "Some" in decision.describe_deep(g4, payload[2][0], 3)} if False else set()
+            for bb, kind, payload in paths.ret_sites(g4):
+                try:
+                    dsc = decision.describe_deep(g4, payload[2][0], 4) if kind not in ("call", "residual", "const", "move") else ""
+                except Exception:
+                    dsc = ""
+                if kind == "Ok" and "Some" in dsc:
+                    goal.add(bb)
+        for u in sorted(L4):
+            if g4.is_cleanup(u) or g4.blocks[u]["t"]["k"] != "switch":
+                continue
+            by_succ = {}
+            for v, lab in g4.succ(u):
+                by_succ.setdefault(v, set()).add(lab)
+            for v, labs in by_succ.items():
+                if v in L4 or g4.is_cleanup(v):
+                    continue
+                reach = g4.reachable_from(v)
+                if not (goal & reach):
+                    continue
+                nparse += 1
+                try:
+                    facts = list(guards.derive(g4, prog, guards.edge_facts(g4, prog, u, labs))) + list(guards.facts_at(g4, prog, u))
+                except Exception:
+                    facts = list(guards.facts_at(g4, prog, u))
+                okx = False
+                for fa in facts:
+                    if fa.kind == "boolcall" and fa.truth and fa.call.name in ("any", "contains", "is_some") and re.search(r"windows\(|find\(|position\(|memmem", decision.describe_deep(g4, fa.call.args[0], 8) if fa.call.args else ""):
+                        okx = True      # the head-end search answered yes
+                    elif fa.kind == "variant" and fa.allowed == {"Some"} and fa.steps and re.search(r"find|position|memmem", guards.describe_origin(g4, fa.steps)):
+                        okx = True
+                    elif fa.kind == "cmp":
+                        l, r = guards.describe_origin(g4, fa.lhs), guards.describe_origin(g4, fa.rhs)
+                        if fa.op in ("Ge", "Gt", "Eq") and re.search(r"const (1024|\d{4,})|BUF_SIZE|len", r) and not re.search(r"poll|read", l):
+                            okx = True      # the buffer is full
+                        if fa.op == "Eq" and r == "const 0" and re.search(r"poll|read|Ok", l):
+                            okx = True      # the read returned 0 bytes
+                    elif fa.kind == "int" and fa.values == {0}:
+                        okx = True          # `Ok(0)`
+                    elif fa.kind == "boolcall" and fa.truth and fa.call.name == "is_empty":
+                        okx = True          # no room left in the buffer
+                if not okx:
+                    bad_exit = (u, v)
+        f4 = g4
+        okc4 = bad_exit is None and nparse >= 1
+        ck.ob("C06-c MUSTPASS head complete", "receive-loop:left-only-when-complete-full-or-eof", okc4, f4.loc(f4.blocks[bad_exit[0]]["t"].get("sp")) if bad_exit else f.loc(rd.sp),
+              "" if okc4 else "the loop that receives the head is left for the parser over an edge (bb%s -> bb%s) that establishes neither `the head is complete`, nor `the buffer is full`, nor `the read returned 0 bytes`: a head that arrives in two segments is parsed truncated" % (bad_exit if bad_exit else ("?", "?")),
+              how="%d exit(s) towards the parser, each under head-complete / buffer-full / read-of-0" % nparse)
         ck.ob("C06-c MUSTPASS head complete", "receive-loop:no-decision-on-partial-content", True, f.loc(rd.sp), how="%d give-up exit(s) of the receive loop depend only on the read's result and on counters" % nexit)
     # (d) the number of valid bytes at the start of a parse comes from state kept across requests, not from 0
     ext = [c for c in f.calls() if c.name in ("index", "get_unchecked", "get") and len(c.args) > 1 and "__buf__" in decision.describe_deep(f, c.args[0], 4)
